@@ -180,6 +180,8 @@ class ExprMixin:
                 return Py('module', dotted)
             return Py('extmodule', dotted)
         _f, base, attr = imp
+        if base == 'builtins':
+            return Py('builtin', attr)
         sub = base + '.' + attr if base else attr
         if self.prog.has_module(sub):
             return Py('module', sub)
@@ -285,6 +287,8 @@ class ExprMixin:
                 return Py('bound', selfv, found[0], found[1])
             if kind == 'excclass':
                 return Py('ext', base.py[1] + '.' + attr)
+            if kind == 'anyattr':
+                return Py('anyattr', base.py[1], base.py[2] + '.' + attr)
             raise Unsupported('attribute %s of %s' % (attr, kind))
         if isinstance(t, TOpt):
             if self.spec_mode:
@@ -319,6 +323,9 @@ class ExprMixin:
         if sc is not None and sc.pyclass is not None:
             mod, cls = sc.pyclass
             found = self.prog.find_method(mod, cls, attr)
+            if found is None and attr.startswith('_') and '__' in attr[1:]:
+                # name-mangled private method: stored under its source name
+                found = self.prog.find_method(mod, cls, '__' + attr.split('__', 1)[1])
             if found is not None:
                 return Py('bound', base, found[0], found[1])
             r = self.class_attr(self.prog.cls(mod, cls), attr)
@@ -711,6 +718,10 @@ class ExprMixin:
             return z3.Select(t.dom(cont.z), coerce(item, t.k).z)
         if isinstance(t, TList):
             if cont.py == ('emptylist',):
+                return z3.BoolVal(False)
+            if isinstance(item.t, TOpt) and item.t.inner == t.elem:
+                return z3.And(z3.Not(item.t.is_none(item.z)), z3.Contains(cont.z, z3.Unit(item.t.val(item.z))))
+            if item.t is TNone:
                 return z3.BoolVal(False)
             return z3.Contains(cont.z, z3.Unit(coerce(item, t.elem).z))
         if isinstance(t, TTuple) or is_py(cont, 'pytuple'):
